@@ -1,12 +1,35 @@
 import Pyrtma.Proofs.ClientRead
+import Pyrtma.Proofs.ClientReadLife
 /-!
 # C08 — the client read path is faithful, filtered and self-resynchronising
 
-Theorems about `Model/ClientRead.lean` (the byte-level model of `Client.read_message` / `_read_message` with the
-C08 fixes applied), for **every** header size ≥ 48, every local definition table, every queue of whole frames
-`fs` (any mix of good / unknown-type / wrong-size / wrong-version / zero-length / unsubscribed frames, any
-length), every incomplete remainder `tail` (the peer closing at any byte offset), every ending (idle / FIN /
-RST), every subscription state and every argument combination (`timeout` class, `ack`, `sync_check`).
+**First layer** — theorems about `Model/ClientRead.lean` (the byte-level model of `Client.read_message` /
+`_read_message` with the C08 fixes applied), for **every** header size ≥ 48, every local definition table, every
+queue of whole frames `fs` (any mix of good / unknown-type / wrong-size / wrong-version / zero-length / unsubscribed
+frames, any length), every incomplete remainder `tail` (the peer closing at any byte offset), every ending (idle /
+FIN / RST), every subscription state and every argument combination (`timeout` class, `ack`, `sync_check`):
+`read_meets_spec`, `read_consumes_one_frame`, `read_decided`, `read_faithful`, `read_filtered`, `kind_cases`,
+`next_call_returns_following_frame`, `eof_is_connection_lost`, `dead_socket_is_lost`, `disconnected_refuses`,
+`advance_tracks_model`, `history_meets_spec`, `fuel_irrelevant` — one session, subscription state injected.
+
+**Second layer, several sessions of one client object** — theorems about `Model/ClientReadLife.lean`: the
+constructor, `connect()` *with the wait for the ACK on the new connection's byte stream* (`waitAck`: the nested loop
+of `_wait_for_acknowledgement` over `read_message(ack=True)`, run with whatever subscription state the object has
+at that moment), `disconnect()`, sends on a dead connection, subscription changes, reads — any history:
+* `never_connected_refuses`, `lost_then_refuses` — `NotConnectedError` before any connect and after a lost connection;
+* `connect_resets_iff_joined` — what `connect()` resets and what it keeps, exactly (joined ⇒ connected, empty sets;
+  lost ⇒ disconnected; timeout / decode error ⇒ still "connected", sets as they were);
+* `handshake_ignores_stale_subscriptions` (from `waitAck_eq_ref`) — on every well-formed stream the wait for the ACK
+  is the frame-level reference of ONE `read_message(timeout>0, ack=True)` of a client subscribed to nothing: stale
+  sets cannot influence the handshake;
+* `fresh_session_filters_by_empty_state`, `stale_type_frame_is_consumed_and_skipped` — a fresh session filters by
+  the *new* (empty) state; a queued frame of a type the old session had subscribed to is consumed and skipped (the
+  class of the seeded regression C08d);
+* `life_history_meets_spec`, `life_from_constructor_meets_spec` — the Spec over sessions (`Spec/ClientReadLife.lean`)
+  holds of the model for every history in which every new connection carries a well-formed stream.
+Not in the model: the bytes the client *writes* (CONNECT_V2 / CONNECT / DISCONNECT: C06 entry model, M2 life
+cycle), a `connect()` that fails before the handshake (`MessageManagerNotFound`, `SocketOptionError`), and the
+clock (`AcknowledgementTimeout` = the new connection has nothing readable and no ACK has arrived).
 -/
 namespace Pyrtma.C08
 open Pyrtma.ClientRead
@@ -301,6 +324,244 @@ theorem history_meets_spec (cfg : Cfg) : ∀ (calls : List Call) (p : Pre), p.wf
       exact history_meets_spec cfg cs p' h2
 
 
+/-! ## Several sessions of one client object (`Model/ClientReadLife.lean`)
+
+`connect()` (with the wait for the ACK on the new connection's byte stream, read with whatever subscription state
+the object has at that moment), `disconnect()`, sends that hit a dead connection, subscription changes, and reads —
+in any order, from the constructor on. -/
+
+/-- **Before any `connect()` every read is refused** (`NotConnectedError`), nothing is touched. -/
+theorem never_connected_refuses (cfg : Cfg) (tmo : Tmo) (ack sync : Bool) :
+    readMessage cfg tmo ack sync St.fresh = (⟨.notConnected, 0, false⟩, St.fresh) :=
+  disconnected_refuses cfg tmo ack sync St.fresh rfl
+
+/-- **After a lost connection every read is refused until the next `connect()`**: a read that raised
+`ConnectionLost`, a send that hit a dead connection, a `connect()` whose handshake found the peer gone, and
+`disconnect()` all leave `connected = False`. -/
+theorem lost_then_refuses (cfg : Cfg) (tmo : Tmo) (ack sync : Bool) (st : St) (new : Sock) :
+    (st.connected = true → (sendFailCall st).1 = ⟨.lost, 0, false⟩ ∧ (sendFailCall st).2.connected = false) ∧
+    ((connectCall cfg st new).1.res = .lost → (connectCall cfg st new).2.connected = false) ∧
+    (disconnectCall st).connected = false ∧
+    (∀ st' : St, st'.connected = false →
+      readMessage cfg tmo ack sync st' = (⟨.notConnected, 0, false⟩, st')) := by
+  refine ⟨fun h => by simp [sendFailCall, h], ?_, rfl, fun st' h => disconnected_refuses cfg tmo ack sync st' h⟩
+  unfold connectCall
+  generalize waitAck cfg (subAtHandshake st) (new.data.length + 1) new = r
+  obtain ⟨res, s'⟩ := r
+  cases res <;> simp [connectOut, CRes.ofRes]
+
+/-- **What `connect()` resets and what it keeps**, exactly: an accepted one (it returned) leaves the client
+connected and subscribed to nothing; one that lost the connection leaves it disconnected; any other way out
+(`AcknowledgementTimeout`, a decode error escaping from the wait) leaves it "connected" to the new socket — and in
+the last two cases the subscription state is what it was (empty if `connect()` had to disconnect first). -/
+theorem connect_resets_iff_joined (cfg : Cfg) (st : St) (new : Sock) :
+    ((connectCall cfg st new).1.res = .joined →
+      (connectCall cfg st new).2.connected = true ∧ (connectCall cfg st new).2.sub = ⟨false, []⟩) ∧
+    ((connectCall cfg st new).1.res ≠ .joined →
+      (connectCall cfg st new).2.sub = if st.connected then ⟨false, []⟩ else st.sub) := by
+  unfold connectCall
+  generalize waitAck cfg (subAtHandshake st) (new.data.length + 1) new = r
+  obtain ⟨res, s'⟩ := r
+  cases res <;> simp [connectOut, CRes.ofRes, subAtHandshake]
+
+/-- **The handshake does not depend on what the client believes to be subscribed to**: on a well-formed stream
+`_wait_for_acknowledgement` ends the same way and at the same byte whether the sets are stale, reset, or
+subscribed-to-all (stale sets can therefore not make `connect()` take a queued message for the ACK or skip it). -/
+theorem handshake_ignores_stale_subscriptions (cfg : Cfg) (sub sub' : Sub) (w : Wire) (hw : w.pre.wf cfg = true) :
+    waitAck cfg sub (w.sock.data.length + 1) w.sock = waitAck cfg sub' (w.sock.data.length + 1) w.sock :=
+  waitAck_sub_irrelevant cfg sub sub' w hw
+
+/-- **A fresh session filters by the new, empty subscription state**: after an accepted `connect()` — whatever the
+object had subscribed to before, however the earlier session ended — `read_message` returns nothing but an ACK, and
+that only on request, until the application subscribes again. -/
+theorem fresh_session_filters_by_empty_state (cfg : Cfg) (st : St) (w : Wire)
+    (hj : (connectCall cfg st w.sock).1.res = .joined) (p : Pre) (hp : p.wf cfg = true)
+    (hst : p.st = (connectCall cfg st w.sock).2) (a : Args) (h pl : Bytes)
+    (hr : (obsOf cfg p a).res = .msg h pl) : a.ack = true ∧ hType h = cfg.ack := by
+  have hsub : p.sub = ⟨false, []⟩ := by
+    have := ((connect_resets_iff_joined cfg st w.sock).1 hj).2
+    rw [← hst] at this
+    simpa [Pre.st] using this
+  rcases read_filtered cfg p a hp h pl hr with h1 | h1 | h1
+  · simp [hsub] at h1
+  · simp [hsub] at h1
+  · exact h1
+
+/-- **A frame of a type the old session had subscribed to, queued on the new connection, is consumed and skipped**:
+for a client subscribed to nothing, a decodable frame `f` (not an ACK the caller asked for) in front of the queue is
+taken off the wire and the call goes on with the rest of the queue (`timeout == 0`: it returns `None` after `f`). -/
+theorem stale_type_frame_is_consumed_and_skipped (cfg : Cfg) (p : Pre) (a : Args) (hw : p.wf cfg = true)
+    (hc : p.connected = true) (hsub : p.sub = ⟨false, []⟩) (f : Frame) (rest : List Frame) (hfs : p.fs = f :: rest)
+    (hgood : kind cfg a.sync f.hdr = .good) (hnack : ¬ (a.ack = true ∧ hType f.hdr = cfg.ack)) :
+    (a.tmo = .zero → obsOf cfg p a = ⟨.none, f.len, true⟩) ∧
+    (a.tmo ≠ .zero →
+      (obsOf cfg p a).res = (obsOf cfg { p with fs := rest } a).res ∧
+      (obsOf cfg p a).consumed = f.len + (obsOf cfg { p with fs := rest } a).consumed ∧
+      (readMessage cfg a.tmo a.ack a.sync p.st).2 = (readMessage cfg a.tmo a.ack a.sync ({ p with fs := rest } : Pre).st).2) := by
+  obtain ⟨hs, hwf, hi, hb⟩ := wf_parts hw
+  have hwf' : f.wf cfg = true ∧ rest.all (Frame.wf cfg) = true := by simpa [hfs] using hwf
+  have hskip : skipF cfg p.sub a f = true := by
+    simp only [skipF, hgood, beq_self_eq_true, Bool.true_and, hsub, wanted, Bool.false_or, List.contains_nil,
+      Bool.not_eq_true', Bool.and_eq_false_iff]
+    by_cases hk : a.ack = true
+    · right
+      have : hType f.hdr ≠ cfg.ack := fun h => hnack ⟨hk, h⟩
+      simpa using this
+    · left; simpa using hk
+  have hw' : ({ p with fs := rest } : Pre).wf cfg = true := by
+    simp only [Pre.wf, Bool.and_eq_true, decide_eq_true_eq, Bool.not_eq_true']
+    exact ⟨⟨⟨hs, hwf'.2⟩, hi⟩, hb⟩
+  have e1 := readMessage_ref cfg p a hw hc
+  have e2 := readMessage_ref cfg { p with fs := rest } a hw' hc
+  have hflen : 0 < f.len := wf_len_pos hs hwf'.1
+  have hF : framesLen p.fs = f.len + framesLen rest := by rw [hfs]; rfl
+  constructor
+  · intro hz
+    have href : ref cfg p.sub a p.tail p.e p.fs = (.none, ⟨streamOf rest p.tail, p.e⟩) := by
+      rw [hfs]
+      conv => lhs; unfold ref
+      simp [hskip, hz]
+    simp only [obsOf, e1, href, Pre.total, streamOf_length, hF]
+    have : (Res.none != Res.lost) = true := by decide
+    simp only [this]
+    congr 1
+    omega
+  · intro hz
+    have href : ref cfg p.sub a p.tail p.e p.fs = ref cfg p.sub a p.tail p.e rest := by
+      rw [hfs]; exact ref_skip_prefix cfg p.sub a p.tail p.e hz [f] rest (by simp [hskip])
+    have hrem := ref_shrinks cfg p.sub a p.tail p.e hi hb rest
+    simp only [obsOf, e1, e2, href, true_and, and_true]
+    simp only [Pre.total, streamOf_length, hF] at hrem ⊢
+    omega
+
+/-- `advance` looks at the observation only through "was it ConnectionLost", the byte count and `connected` -/
+theorem advance_congr (p : Pre) (o o' : Obs) (h1 : (o.res == .lost) = (o'.res == .lost))
+    (h2 : o.consumed = o'.consumed) (h3 : o.connected = o'.connected) : p.advance o = p.advance o' := by
+  unfold Pre.advance
+  simp only [h1, h2, h3]
+
+theorem closed_wf (cfg : Cfg) (p : Pre) (sub : Sub) (hw : p.wf cfg = true) : (p.closed sub).wf cfg = true := by
+  obtain ⟨hs, _, _, _⟩ := wf_parts hw
+  simp [Pre.closed, Pre.wf, hs, wf_empty_tail hs]
+
+/-- **Every history over any number of sessions meets the Spec** (`Spec/ClientReadLife.lean`, the oracle the driver
+evaluates on the implementation): every read is judged by the nine clauses of `Spec/ClientRead.lean` in the
+pre-state the *observations* of the earlier calls determine — position in the current connection's stream,
+`connected`, and the currently subscribed set, which an accepted `connect()` makes empty —, every `connect()` by
+`connClauses`, every send on a dead connection by `sendFailOk`. -/
+theorem life_history_meets_spec (cfg : Cfg) : ∀ (calls : List SCall) (p : Pre), p.wf cfg = true →
+    callsWf cfg calls = true → lifeHistOk cfg p calls (runLife cfg (calls.map SCall.toL) p.st) = true
+  | [], _, _, _ => by simp [lifeHistOk]
+  | .read tmo ack sync :: cs, p, hw, hcw => by
+    have hspec := read_meets_spec cfg p ⟨tmo, ack, sync⟩ hw
+    simp only [List.map_cons, SCall.toL, runLife, lifeStep, lifeHistOk, Bool.and_eq_true, Bool.or_eq_true, beq_iff_eq]
+    refine ⟨hspec, ?_⟩
+    by_cases hb : (obsOf cfg p ⟨tmo, ack, sync⟩).res = .blocked
+    · exact .inl hb
+    · right
+      obtain ⟨p', h1, h2, h3, _⟩ := advance_tracks_model cfg p ⟨tmo, ack, sync⟩ hw hb
+      simp only [obsOf] at h1
+      rw [h1]
+      simp only
+      rw [← h3]
+      exact life_history_meets_spec cfg cs p' h2 (by simpa [callsWf] using hcw)
+  | .setSub sub :: cs, p, hw, hcw => by
+    simp only [List.map_cons, SCall.toL, runLife, lifeStep, lifeHistOk]
+    have hst : (if p.st.connected = true then { p.st with sub := sub } else p.st) =
+        (if p.connected = true then { p with sub := sub } else p : Pre).st := by
+      by_cases hc : p.connected = true <;> simp [Pre.st, Pre.sock, hc]
+    have hw' : (if p.connected = true then { p with sub := sub } else p : Pre).wf cfg = true := by
+      by_cases hc : p.connected = true
+      · simpa [hc, Pre.wf] using hw
+      · simpa [hc] using hw
+    rw [hst]
+    exact life_history_meets_spec cfg cs _ hw' (by simpa [callsWf] using hcw)
+  | .connect w :: cs, p, hw, hcw => by
+    have hww : w.pre.wf cfg = true := by
+      simp only [callsWf, Bool.and_eq_true] at hcw; exact hcw.1
+    have hcs : callsWf cfg cs = true := by
+      simp only [callsWf, Bool.and_eq_true] at hcw; exact hcw.2
+    have hspec := read_meets_spec cfg w.pre hsArgs hww
+    have hok := connOk_of_specOk cfg w _ hspec
+    have heq := connectCall_eq cfg p.st w hww
+    simp only [List.map_cons, SCall.toL, runLife, lifeStep, lifeHistOk, heq, Bool.and_eq_true]
+    refine ⟨hok, ?_⟩
+    -- the observation of the equivalent read
+    have hobs : obsOf cfg w.pre hsArgs = (readMessage cfg .pos true false w.pre.st).1 := rfl
+    generalize hO : (readMessage cfg .pos true false w.pre.st).1 = o at *
+    have hconn2 : (readMessage cfg .pos true false w.pre.st).2.connected = o.connected := by
+      rw [← hO]; exact readMessage_connected cfg .pos true false w.pre.st
+    have hsub2 : (readMessage cfg .pos true false w.pre.st).2.sub = ⟨false, []⟩ :=
+      readMessage_sub cfg .pos true false w.pre.st
+    cases hres : o.res with
+    | msg h pl =>
+      have hnb : (obsOf cfg w.pre hsArgs).res ≠ .blocked := by rw [hobs, hres]; simp
+      obtain ⟨p', h1, h2, h3, _⟩ := advance_tracks_model cfg w.pre hsArgs hww hnb
+      rw [hobs] at h1
+      have hm1 : (Res.msg h pl == Res.lost) = false := by rw [beq_eq_false_iff_ne]; intro hh; cases hh
+      have hadv : w.pre.advance ⟨.none, o.consumed, o.connected⟩ = some p' := by
+        rw [← h1]; exact advance_congr _ _ _ (by rw [hres, hm1]; rfl) rfl rfl
+      have h3' : p'.st = (readMessage cfg .pos true false w.pre.st).2 := h3
+      have hst : p'.st = ⟨(readMessage cfg .pos true false w.pre.st).2.sock, o.connected, noSub⟩ := by
+        rw [h3', ← hconn2, ← show (readMessage cfg .pos true false w.pre.st).2.sub = noSub from hsub2]
+      simp only [connNext, CRes.ofRes, beq_self_eq_true, Bool.true_or, if_true, Res.isMsg]
+      have hne : (CRes.joined == CRes.lost) = false := by decide
+      simp only [hne, Bool.false_eq_true, if_false, hadv]
+      rw [← hst]
+      exact life_history_meets_spec cfg cs p' h2 hcs
+    | lost =>
+      have hnb : (obsOf cfg w.pre hsArgs).res ≠ .blocked := by rw [hobs, hres]; simp
+      obtain ⟨p', h1, h2, h3, _⟩ := advance_tracks_model cfg w.pre hsArgs hww hnb
+      rw [hobs] at h1
+      have hadv : w.pre.advance ⟨.lost, o.consumed, o.connected⟩ = some p' := by
+        rw [← h1]; exact advance_congr _ _ _ (by rw [hres]) rfl rfl
+      simp only [connNext, CRes.ofRes, beq_self_eq_true, Bool.or_true, if_true, Res.isMsg]
+      have hne : (CRes.lost == CRes.joined) = false := by decide
+      simp only [hne, Bool.false_eq_true, if_false, hadv]
+      have h3' : p'.st = (readMessage cfg .pos true false w.pre.st).2 := h3
+      have hsock : p'.sock = (readMessage cfg .pos true false w.pre.st).2.sock := congrArg St.sock h3'
+      have hcon : p'.connected = o.connected := by rw [← hconn2]; exact congrArg St.connected h3'
+      have hst : ({ p' with sub := if p.connected = true then ⟨false, []⟩ else p.sub } : Pre).st =
+          ⟨(readMessage cfg .pos true false w.pre.st).2.sock, o.connected, subAtHandshake p.st⟩ := by
+        show (⟨p'.sock, p'.connected, _⟩ : St) = _
+        rw [hsock, hcon]
+        rfl
+      rw [← hst]
+      refine life_history_meets_spec cfg cs _ ?_ hcs
+      simpa [Pre.wf] using h2
+    | none => simp [connNext, CRes.ofRes]
+    | unknownType h r => simp [connNext, CRes.ofRes]
+    | invalidDef => simp [connNext, CRes.ofRes]
+    | notConnected => simp [connNext, CRes.ofRes]
+    | blocked => simp [connNext, CRes.ofRes]
+    | crash => simp [connNext, CRes.ofRes]
+  | .disconnect :: cs, p, hw, hcw => by
+    simp only [List.map_cons, SCall.toL, runLife, lifeStep, lifeHistOk]
+    have hst : disconnectCall p.st = (p.closed ⟨false, []⟩).st := rfl
+    rw [hst]
+    exact life_history_meets_spec cfg cs _ (closed_wf cfg p _ hw) (by simpa [callsWf] using hcw)
+  | .sendFail :: cs, p, hw, hcw => by
+    simp only [List.map_cons, SCall.toL, runLife, lifeStep, lifeHistOk, Bool.and_eq_true]
+    by_cases hc : p.connected = true
+    · have hc' : p.st.connected = true := hc
+      have hst : ({ p.st with sock := Sock.dead, connected := false } : St) = (p.closed p.sub).st := rfl
+      simp only [sendFailCall, hc', if_true, hc, hst]
+      refine ⟨by simp [sendFailOk, hc], ?_⟩
+      exact life_history_meets_spec cfg cs _ (closed_wf cfg p _ hw) (by simpa [callsWf] using hcw)
+    · have hc' : p.st.connected = false := by simpa [Pre.st] using hc
+      have hcf : p.connected = false := by simpa using hc
+      simp only [sendFailCall, hc', Bool.false_eq_true, if_false, hcf]
+      refine ⟨by simp [sendFailOk, hcf], ?_⟩
+      exact life_history_meets_spec cfg cs p hw (by simpa [callsWf] using hcw)
+
+/-- … in particular for a client object from its constructor on -/
+theorem life_from_constructor_meets_spec (cfg : Cfg) (hs : 48 ≤ cfg.hsize) (calls : List SCall)
+    (hcw : callsWf cfg calls = true) :
+    lifeHistOk cfg Pre.never calls (runLife cfg (calls.map SCall.toL) St.fresh) = true := by
+  have hw : Pre.never.wf cfg = true := by simp [Pre.never, Pre.wf, hs, wf_empty_tail hs]
+  exact life_history_meets_spec cfg calls Pre.never hw hcw
+
+
 /-- The fuel of `readLoop` is a device for structural recursion only: any amount above the number of queued
 frames gives the same answer (so the model never stops for lack of fuel). -/
 theorem fuel_irrelevant (cfg : Cfg) (p : Pre) (a : Args) (hw : p.wf cfg = true) (n m : Nat)
@@ -355,6 +616,45 @@ example : (runCalls exCfg [.read .pos false true, .read .pos false true, .setSub
       .read .pos false true, .read .pos false true, .read .pos false true]
     (exPre [fSize, fGood, fGood, fSignal] [] .fin).st).map (·.res) =
     [.invalidDef, .msg fGood.hdr [1, 2], .msg fSignal.hdr [], .lost, .notConnected] := by decide +kernel
+
+/-! several sessions -/
+
+/-- `exCfg` plus the definition of ACKNOWLEDGE (type 2, no payload) -/
+def exCfgA : Cfg := { exCfg with defs := exCfg.defs ++ [⟨2, 0, 7⟩] }
+def fAck : Frame := ⟨mkHdr 2 0 0, []⟩
+def wireOf (fs : List Frame) (e : End) : Wire := ⟨fs, [], e⟩
+
+/-- a session subscribed to type 10 loses its connection under a send; the next connection carries two ACKs and
+then a frame of type 10: `connect()` takes the first ACK, the read skips the second ACK *and* the frame (98 bytes) -/
+example : runLife exCfgA ([.connect (wireOf [fAck] .idle), .setSub ⟨false, [10]⟩, .sendFail, .read .pos false true,
+      .connect (wireOf [fAck, fAck, fGood] .idle), .read .pos false true].map SCall.toL) St.fresh =
+    [.conn ⟨.joined, 48, true⟩, .unit, .conn ⟨.lost, 0, false⟩, .read ⟨.notConnected, 0, false⟩,
+     .conn ⟨.joined, 48, true⟩, .read ⟨.none, 98, true⟩] := by decide +kernel
+/-- the same with an old subscribe-to-all, and with a frame queued *before* the ACK: dropped by the wait -/
+example : runLife exCfgA ([.connect (wireOf [fAck] .idle), .setSub ⟨true, [2147483647]⟩, .sendFail,
+      .connect (wireOf [fGood, fAck, fGood] .idle), .read .zero false true].map SCall.toL) St.fresh =
+    [.conn ⟨.joined, 48, true⟩, .unit, .conn ⟨.lost, 0, false⟩, .conn ⟨.joined, 98, true⟩, .read ⟨.none, 50, true⟩] := by
+  decide +kernel
+/-- before any connect; a handshake that never sees an ACK (timeout: still "connected", nothing reset); one whose
+peer closes; an undecodable frame before the ACK escapes from `connect()` -/
+example : runLife exCfgA [.read .neg true true, .sendFail, .disconnect] St.fresh =
+    [.read ⟨.notConnected, 0, false⟩, .conn ⟨.notConnected, 0, false⟩, .unit] := by decide +kernel
+example : (connectCall exCfgA ⟨Sock.dead, false, ⟨false, [10]⟩⟩ (wireOf [fGood] .idle).sock) =
+    (⟨.ackTimeout, 50, true⟩, ⟨⟨[], .idle⟩, true, ⟨false, [10]⟩⟩) := by decide +kernel
+example : (connectCall exCfgA St.fresh (wireOf [fGood] .fin).sock).1 = ⟨.lost, 50, false⟩ := by decide +kernel
+example : (connectCall exCfgA St.fresh (wireOf [fUnknown, fAck] .idle).sock).1 = ⟨.unknownType, 51, true⟩ := by
+  decide +kernel
+/-- the hypotheses of `life_history_meets_spec` are satisfiable, the oracle accepts the model's trace, and it is
+not trivially true: a second session that hands out the frame of the old type fails `returned_type_subscribed` -/
+def exCalls : List SCall :=
+  [.connect (wireOf [fAck] .idle), .setSub ⟨false, [10]⟩, .sendFail, .connect (wireOf [fAck, fAck, fGood] .idle),
+   .read .pos false true]
+example : callsWf exCfgA exCalls = true := by decide +kernel
+example : lifeHistOk exCfgA Pre.never exCalls (runLife exCfgA (exCalls.map SCall.toL) St.fresh) = true := by
+  decide +kernel
+example : lifeHistOk exCfgA Pre.never exCalls
+    [.conn ⟨.joined, 48, true⟩, .unit, .conn ⟨.lost, 0, false⟩, .conn ⟨.joined, 48, true⟩,
+     .read ⟨.msg fGood.hdr fGood.payload, 98, true⟩] = false := by decide +kernel
 
 end Examples
 
